@@ -389,6 +389,9 @@ class ComposedNode(ConfigNode):
         ret['implicit_allow_new'] = notnone_or(self._allow_new, self._implicit_allow_new)
         if child is None or getattr(child, '_implicit_safe') is not False: # do not set "implicit_safe" arg if the child exists and already has it set to False (note: I think it's not strictly necessary to handle it here since other checks would still prevent changes)
             ret['implicit_safe'] = notnone_or(self._safe, self._implicit_safe)
+            if self._implicit_safe is False:
+                # what is below an unsafe node stays unsafe, an explicit flag on the way down cannot make it safe again
+                ret['implicit_safe'] = False
         return ret
 
     def _propagate_implicit_values(self):
